@@ -207,8 +207,7 @@ def fallback_class(acc, cls, text, extra=None):
         text = 'T154N-R97W ' + text
     key = f"class|{cls}|{cfg}|{text}"
     case = {'k': 'class', 'cls': cls, 'text': text, 'extra': extra}
-    if cls == 'no_colon_required' and extra == 'sec_colon_cautious':
-        return      # 'required' and 'cautious' together: required wins; same as no extra
+    # ('required' and 'cautious' together: required wins - the same single fallback tract is expected)
     if extra and 'segment' in extra and cls != 'no_twprge':
         # segmenting splits the text at every Twp/Rge and lets each chunk fall back on its own (that is the feature);
         # 'one tract with the entire text' is only defined for it when there is no Twp/Rge to split at
